@@ -39,6 +39,8 @@ type Script struct {
 	NoSinglePost bool `json:"no_single_post,omitempty"`
 	NoReferrers  bool `json:"no_referrers,omitempty"`
 	MaxPage      int  `json:"max_page,omitempty"`
+	// LocMode: LocationsForDescriptor option: "" unset | "empty" (returns no locations) | "one" | "error"
+	LocMode string `json:"loc_mode,omitempty"`
 
 	Method   string            `json:"method"`
 	Path     string            `json:"path"`
@@ -133,10 +135,21 @@ func run(s Script, v *vt.V) {
 		return
 	}
 	r := rec.New(mem)
-	h := ociserver.New(r.Registry(), &ociserver.Options{
+	opts := &ociserver.Options{
 		OmitDigestFromTagGetResponse: s.OmitDigest, OmitLinkHeaderFromResponses: s.OmitLink,
 		DisableSinglePostUpload: s.NoSinglePost, DisableReferrersAPI: s.NoReferrers, MaxListPageSize: s.MaxPage,
-	})
+	}
+	switch s.LocMode {
+	case "empty":
+		opts.LocationsForDescriptor = func(bool, ociregistry.Descriptor) ([]string, error) { return nil, nil }
+	case "one":
+		opts.LocationsForDescriptor = func(isManifest bool, d ociregistry.Descriptor) ([]string, error) {
+			return []string{"https://cdn.test/" + string(d.Digest)}, nil
+		}
+	case "error":
+		opts.LocationsForDescriptor = func(bool, ociregistry.Descriptor) ([]string, error) { return nil, fmt.Errorf("no locations today") }
+	}
+	h := ociserver.New(r.Registry(), opts)
 	body := s.body()
 	req := &http.Request{Method: s.Method, URL: &url.URL{Path: s.Path, RawQuery: s.RawQuery}, Header: http.Header{},
 		Body: io.NopCloser(bytes.NewReader(body)), Host: "registry.test", Proto: "HTTP/1.1", ProtoMajor: 1, ProtoMinor: 1,
@@ -150,7 +163,7 @@ func run(s Script, v *vt.V) {
 	w := httptest.NewRecorder()
 	h.ServeHTTP(w, req) // a panic is caught by vt and reported with the script
 
-	desc := fmt.Sprintf("%s %s?%s headers=%v body=%dB cl=%d opts(omitDigest=%v omitLink=%v noSinglePost=%v noReferrers=%v maxPage=%d)", s.Method, s.Path, s.RawQuery, s.Headers, len(body), req.ContentLength, s.OmitDigest, s.OmitLink, s.NoSinglePost, s.NoReferrers, s.MaxPage)
+	desc := fmt.Sprintf("%s %s?%s headers=%v body=%dB cl=%d opts(omitDigest=%v omitLink=%v noSinglePost=%v noReferrers=%v maxPage=%d loc=%q)", s.Method, s.Path, s.RawQuery, s.Headers, len(body), req.ContentLength, s.OmitDigest, s.OmitLink, s.NoSinglePost, s.NoReferrers, s.MaxPage, s.LocMode)
 	calls := r.Calls()
 	status := w.Code
 	respBody := w.Body.Bytes()
@@ -240,6 +253,9 @@ func run(s Script, v *vt.V) {
 		return
 	}
 	if status >= 300 {
+		if hdr.Get("Location") == "" {
+			v.Failf("missing-header", "%s: redirect %d without a Location header", desc, status)
+		}
 		return
 	}
 	// (3) successes carry the mandated headers
@@ -330,6 +346,17 @@ func run(s Script, v *vt.V) {
 				v.Failf("bad-header", "%s: Range %q", desc, hdr.Get("Range"))
 				return
 			}
+			// the Range header reports what the registry now holds for the session
+			lc := calls[len(calls)-1]
+			if w, err := mem.PushBlobChunkedResume(context.Background(), lc.Repo, lc.ID, -1, 0); err == nil {
+				size := w.Size()
+				w.Close()
+				want := fmt.Sprintf("0-%d", max(size-1, 0))
+				if hdr.Get("Range") != want {
+					v.Failf("wrong-range-header", "%s: Range %q but the session holds %d bytes (want %q)", desc, hdr.Get("Range"), size, want)
+					return
+				}
+			}
 		default:
 			v.Failf("status", "%s: upload request answered %d", desc, status)
 			return
@@ -373,6 +400,7 @@ func genScript(t *rapid.T) Script {
 	s.OmitDigest, s.OmitLink = rapid.Bool().Draw(t, "omitDigest"), rapid.Bool().Draw(t, "omitLink")
 	s.NoSinglePost, s.NoReferrers = rapid.IntRange(0, 3).Draw(t, "noSinglePost") == 0, rapid.IntRange(0, 5).Draw(t, "noReferrers") == 0
 	s.MaxPage = rapid.SampledFrom([]int{0, 0, 1, 2, 1000}).Draw(t, "maxPage")
+	s.LocMode = rapid.SampledFrom([]string{"", "", "", "empty", "one", "error"}).Draw(t, "locMode")
 	s.Method = rapid.SampledFrom([]string{"GET", "GET", "GET", "HEAD", "PUT", "POST", "PATCH", "DELETE", "OPTIONS", "", "get", "CONNECT", "G E T"}).Draw(t, "method")
 	repo := func() string {
 		switch rapid.IntRange(0, 7).Draw(t, "repoKind") {
@@ -498,7 +526,7 @@ func genScript(t *rapid.T) Script {
 			s.Headers[name] = rapid.SampledFrom(vals).Draw(t, "h_"+name)
 		}
 	}
-	hopt("Range", []string{"bytes=0-0", "bytes=0-", "bytes=1-2", "bytes=5-4", "bytes=0--1", "bytes=-1", "bytes=0-1,2-3", "garbage", "bytes=99999-", "bytes=17-", "bytes=18-", "bytes=0-99999", "bytes=", "bytes=a-b", "bytes=9223372036854775807-", "bytes=0-9223372036854775807"})
+	hopt("Range", []string{"bytes=0-0", "bytes=0-", "bytes=1-2", "bytes=5-4", "bytes=0--1", "bytes=-1", "bytes=0-1,2-3", "garbage", "bytes=99999-", "bytes=17-", "bytes=18-", "bytes=0-99999", "bytes=", "bytes=a-b", "bytes=9223372036854775807-", "bytes=0-9223372036854775807", "bytes=1-18", "bytes=0-18", "bytes=5-18", "bytes=17-18", "bytes=0-2", "bytes=1-2", "bytes=0-17", "bytes=16-17"})
 	hopt("Content-Range", []string{"0-0", "0-4", "5-9", "5-4", "1-0", "x-y", "0-99999999999999999999", "-1-2", "5-", "-", "0-17", "5-22", "9223372036854775806-9223372036854775807", "4-8"})
 	hopt("Content-Type", []string{ocispec.MediaTypeImageManifest, ocispec.MediaTypeImageIndex, "application/vnd.verif.opaque", "garbage", "application/octet-stream", ""})
 	switch rapid.IntRange(0, 5).Draw(t, "clKind") {
